@@ -52,6 +52,7 @@ type c01In struct {
 	Fault      *vk.Fault `json:"fault"`
 	DcsFault   *memFault `json:"dcs_fault"`
 	CatchUp    int       `json:"catch_up_s"` // seconds
+	ReturnAt   int       `json:"return_at,omitempty"` // >0: the dead old master comes back (writable, one more commit on it) when the k-th mutating statement of the procedure arrives
 }
 
 type c01Promotion struct {
@@ -76,6 +77,8 @@ type c01Out struct {
 	Final      map[string]vk.Node
 	Master     string
 	AtLock     map[string]vk.Node // fake servers at the first lock re-check (after the freeze)
+	AckedOnReturn string           // the transaction committed on the returned old master, if enough semi-sync replicas acknowledged it
+	AckedBy    []string
 }
 
 func c01Run(in c01In) c01Out {
@@ -111,7 +114,8 @@ func c01Run(in c01In) c01Out {
 			if c.Retrieved != "" {
 				n.Retrieved = vk.GtidUnion(exec, u1+":"+c.Retrieved)
 			}
-			n.SSSlave, n.SSSlaveEffective = in.SemiSync, in.SemiSync
+			ack := in.SemiSync && !c.Cascade // cascade replicas never acknowledge: mysync enables the replica side on HA members only
+			n.SSSlave, n.SSSlaveEffective = ack, ack
 			lag := c.Lag
 			n.Lag = &lag
 		}
@@ -186,7 +190,35 @@ func c01Run(in c01In) c01Out {
 		}
 	}
 	frozen := map[string]bool{}
+	mutating := 0
 	w.OnStatement = func(w *vk.World, n *vk.Node, caller, kind, arg string) {
+		if mutatingKind(kind) {
+			mutating++
+			if in.ReturnAt > 0 && mutating == in.ReturnAt {
+				// the old master returns: its mysqld is up again and a client commits on it; every receiver thread that is
+				// still started (it was only "Connecting") reconnects and fetches
+				if m0 := w.Nodes["h1"]; m0 != nil && !m0.Up {
+					m0.Up = true
+					if !m0.RO {
+						m0.NextGno += 1000
+						m0.Executed = vk.GtidUnion(m0.Executed, fmt.Sprintf("%s:%d", m0.UUID, m0.NextGno))
+					}
+					var g string
+					if !m0.RO {
+						g = fmt.Sprintf("%s:%d", m0.UUID, m0.NextGno)
+					}
+					for _, x := range w.Nodes {
+						w.ReplicateLocked(x)
+					}
+					// the client is told "committed" only if enough semi-sync replicas received it
+					if g != "" && m0.SSMaster {
+						if ack := w.AckersLocked(m0); len(ack) >= m0.WaitCount {
+							out.AckedOnReturn, out.AckedBy = g, ack
+						}
+					}
+				}
+			}
+		}
 		if kind == "SSetRO" && !frozen[n.Host] {
 			frozen[n.Host] = true
 			snap := map[string]vk.Node{}
@@ -246,6 +278,16 @@ func c01Case(in c01In, out c01Out) string {
 	env := "{| se_old_master := 1%N; se_all_hosts := " + vk.L(all) + "; se_state := " + statesGal(out.State) + "; se_active := " + hostsGal(in.Active) +
 		"; se_uuid_of := " + vk.L(uu) + "; se_emerge_file := 1%N |}"
 	return vk.T(cfgGal(out.Cfg), env, switchRecGal(&out.Sw), out.MemBefore, transcriptGal(out.Trans, vEpoch, ""), vk.B(out.Err == nil), vk.B(out.Emerge))
+}
+
+// statements that change a server (the ones the transcript marks as mutating)
+func mutatingKind(kind string) bool {
+	switch kind {
+	case "SSetRO", "SSetWritable", "SSetOffline", "SSetOnline", "SStopIO", "SStartIO", "SStopSQL", "SStartSQL", "SStopRepl", "SStartRepl",
+		"SResetReplAll", "SChangeSource", "SSemiSetMaster", "SSemiSetSlave", "SSemiDisable", "SSetWaitCount", "SSetFlush", "SSetSyncBinlog", "SKill":
+		return true
+	}
+	return false
 }
 
 func uuidIndexOf(u string) int {
@@ -496,6 +538,27 @@ func TestVerifC01(t *testing.T) {
 		dist.Add(fmt.Sprintf("%+v", in))
 		if i == 1 {
 			m.Sample(map[string]any{"input": in, "mutating": mutatingSummary(out.Trans), "error": fmt.Sprint(out.Err)})
+		}
+		// the dead old master comes back in the middle of the procedure (at a random mutating statement)
+		if len(in.Nodes) > 0 && in.Nodes[0].Down && in.Fault == nil && in.DcsFault == nil {
+			nm := 0
+			for _, e := range out.Trans {
+				if e.Mut && e.Host != "" {
+					nm++
+				}
+			}
+			for k := 1; k <= nm; k++ {
+				rin := in
+				rin.ReturnAt = k
+				rout := run(rin)
+				m.Count("old_master_returns_mid_procedure")
+				if k%4 == i%4 {
+					add(rin, rout) // replayed against the model too
+				} else {
+					c01Monitor(m, rin, rout)
+					m.Evaluations++
+				}
+			}
 		}
 		visited := []vk.Entry{}
 		for _, e := range out.Trans {
